@@ -25,7 +25,7 @@ RULE = ('bpch files of 1-3 time steps, 1-4 (category, tracer) blocks per step fr
         'reference encoder = Lean encoder, Lean decoder recovers the spec; (2) bpch1(noscale) presents the raw '
         'values, ncf2bpch of it reproduces the bytes; (3) bpch1 with scaling = float32(raw) * scale with the unit '
         'and name the Lean `resolve` selects; (4) the block-walking reader bpch2 presents the same data as bpch1; '
-        'non-trivial = at least 2 steps and 2 blocks with different layer counts; (5) the scaled file written by ncf2bpch into an empty directory and read again: names, units, values; (6) the front end bpch() with the block-walking reader named and exactly one of noscale / nogroup set; (7) bpch1 with a stepped / reversed / end-relative timeslice: tau0 and values of exactly the selected time blocks')
+        'non-trivial = at least 2 steps and 2 blocks with different layer counts; (5) the scaled file written by ncf2bpch into an empty directory and read again: names, units, values; (6) the front end bpch() with the block-walking reader named and exactly one of noscale / nogroup set; (8) an in-memory copy of the scaled file written twice (unchanged object, equal bytes); (7) bpch1 with a stepped / reversed / end-relative timeslice: tau0 and values of exactly the selected time blocks')
 ASSUMPTIONS = ['float32 multiplication by the scale factor is numpy, checked numerically (not modelled)',
                'numpy memmap / structured dtypes are trusted for the stride arithmetic, which is exercised on every case']
 MIN_NONTRIVIAL = {'quick': 15, 'thorough': 200}
@@ -114,6 +114,22 @@ def impl(case):
                     raise
                 except Exception as e:
                     res['rescaled'] = dict(err='%s %s' % (type(e).__name__, str(e)[:80]))
+                # an in-memory copy of the scaled file written twice: writing is a query (the object is unchanged, the second
+                # file has the bytes of the first)
+                try:
+                    gm = g.copy()
+                    before = view(gm, case)
+                    d3 = os.path.join(d, 'mem')
+                    os.makedirs(d3)
+                    ncf2bpch(gm, os.path.join(d3, 'm1.bpch')).close()
+                    after = view(gm, case)
+                    ncf2bpch(gm, os.path.join(d3, 'm2.bpch')).close()
+                    res['mem'] = dict(changed=(before != after), same=(open(os.path.join(d3, 'm1.bpch'), 'rb').read() ==
+                                                                       open(os.path.join(d3, 'm2.bpch'), 'rb').read()))
+                except lib.HarnessError:
+                    raise
+                except Exception as e:
+                    res['mem'] = dict(err='%s %s' % (type(e).__name__, str(e)[:80]))
                 try:
                     h = bpch2(p)
                     res['bpch2'] = view(h, case)
@@ -260,6 +276,14 @@ def oracle(case, res):
                 return 'scaled file written into an empty directory and read again: values of %s differ' % a['key']
         if len(rs['vars']) != len(res['scaled']['vars']):
             return 'scaled file written into an empty directory and read again: %d tracers, %d before' % (len(rs['vars']), len(res['scaled']['vars']))
+    mem = res.get('mem')
+    if mem is not None and not case.get('drop_line'):
+        if 'err' in mem:
+            return 'an in-memory copy of the scaled file could not be written: ' + mem['err']
+        if mem['changed']:
+            return 'writing an in-memory copy of the scaled file changed its variables'
+        if not mem['same']:
+            return 'the same in-memory object written twice gives two different files'
     # the front end with the block-walking reader named and one option set: unscaled values under the grouped names /
     # scaled values under the short names
     fn = res.get('front_noscale')
